@@ -269,10 +269,9 @@ func (p *poller) readWriteLoop() {
 					if ev.Events&epollEventsWrite != 0 {
 						if c.onConnected == nil {
 							_ = c.flush()
-						} else {
-							c.onConnected(c, nil)
-							c.onConnected = nil
-							c.resetRead()
+						} else if !c.handleConnected() {
+							// the connect failed and the Conn is closed.
+							continue
 						}
 						// EPOLLONESHOT: a pure writing event is not followed by the
 						// reading handler which re-arms the fd, re-arm it here.
